@@ -3,6 +3,7 @@ package main
 // Evaluation of contract expressions (Go expression syntax + a few built-ins) into SMT terms.
 
 import (
+	"sort"
 	"fmt"
 	"go/ast"
 	"go/parser"
@@ -1237,6 +1238,42 @@ func (e *specEnv) evalCall(n *ast.CallExpr) (sval, error) {
 			return sval{}, fmt.Errorf("no single-method interface with method %s is asserted anywhere", mn)
 		}
 		return sval{v: scalar(x.implementsT(v.v.T, it)), typ: boolT}, nil
+	case "retval", "called": // retval(f, i): what the textually i-th call of f in this function returned on this path; called(f, i): whether it ran
+		id, ok := n.Args[0].(*ast.Ident)
+		lit, ok2 := n.Args[1].(*ast.BasicLit)
+		if !ok || !ok2 || e.frame == nil {
+			return sval{}, fmt.Errorf("%s(function, index)", name)
+		}
+		idx, _ := strconv.Atoi(lit.Value)
+		var calls []*ssa.Call
+		for _, b := range e.frame.fn.Blocks {
+			for _, in := range b.Instrs {
+				if c, ok := in.(*ssa.Call); ok {
+					if sc := c.Call.StaticCallee(); sc != nil && (sc.Name() == id.Name || x.p.Names[sc] == id.Name) {
+						calls = append(calls, c)
+					}
+				}
+			}
+		}
+		sort.Slice(calls, func(i, j int) bool { return calls[i].Pos() < calls[j].Pos() })
+		if idx >= len(calls) {
+			return sval{}, fmt.Errorf("%s(%s, %d): this function has only %d calls of it", name, id.Name, idx, len(calls))
+		}
+		v, ran := e.frame.env[calls[idx]]
+		if name == "called" {
+			if ran {
+				return sval{v: scalar(TTrue), typ: boolT}, nil
+			}
+			return sval{v: scalar(TFalse), typ: boolT}, nil
+		}
+		rt := calls[idx].Call.Signature().Results()
+		if rt.Len() != 1 {
+			return sval{}, fmt.Errorf("retval(%s): not a single-result function", id.Name)
+		}
+		if !ran {
+			return sval{v: x.freshVal(e.s, "notcalled", rt.At(0).Type()), typ: rt.At(0).Type()}, nil
+		}
+		return sval{v: v, typ: rt.At(0).Type()}, nil
 	case "rangeidx": // rangeidx(K): byte offset of the next rune of the range-over-string loop K
 		lit, ok := n.Args[0].(*ast.BasicLit)
 		if !ok || e.frame == nil {
